@@ -440,6 +440,15 @@ fn ev_strategy() -> impl Strategy<Value = Ev> {
                 let second = if reload { "load good.asm" } else { "load dac.asm" };
                 Ev::Type(format!("set {} = {}\nload dac.asm\nnext {}\n{}\nset {} = {}", var, v, n, second, var, v))
             }),
+        // cursor edges: a text of every small length, then runs of editing keys at its ends
+        3 => (prop::collection::vec(prop_oneof![6 => prop::sample::select(CMD_ALPHA.chars().collect::<Vec<char>>()), 1 => prop::sample::select(UNI_ALPHA.to_vec())], 0..13),
+              prop::collection::vec(prop::sample::select(vec!['\u{2}', '\u{2}', '\u{3}', '\u{4}', '\u{4}', '\u{4}', '\u{5}', '\u{5}', '\u{6}', '\u{7}', '\u{8}', '\u{e}', '\u{f}']), 1..8))
+            .prop_map(|(text, keys)| {
+                let mut s: String = text.into_iter().collect();
+                s.extend(keys);
+                s.push('\u{1}');
+                Ev::Type(s)
+            }),
         // two lines in a row that are equal, or equal up to letter case / blanks (history, repeated
         // commands, `load` of paths that differ only in case): '\n' inside a macro is the Enter key
         3 => (command_line(), any::<u32>(), 0u8..5).prop_map(|(l, mask, how)| {
@@ -739,12 +748,30 @@ pub fn run_script(sc: &Script) -> (Verdict, Stats) {
         let keys: Vec<Ev> = match ev {
             Ev::Type(line) => {
                 // a trailing NUL means: type the text, then Tab instead of Enter
-                let (text, last) = match line.strip_suffix('\u{0}') {
-                    Some(t) => (t, Ev::Tab),
-                    None => (line.as_str(), Ev::Enter),
+                // a trailing SOH means: no terminating key at all (pure editing macro)
+                let (text, last) = match (line.strip_suffix('\u{0}'), line.strip_suffix('\u{1}')) {
+                    (Some(t), _) => (t, Some(Ev::Tab)),
+                    (_, Some(t)) => (t, None),
+                    _ => (line.as_str(), Some(Ev::Enter)),
                 };
-                let mut v: Vec<Ev> = text.chars().map(|c| if c == '\n' { Ev::Enter } else { Ev::Char(c) }).collect();
-                v.push(last);
+                // control characters inside a macro stand for editing keys
+                let mut v: Vec<Ev> = text
+                    .chars()
+                    .map(|c| match c {
+                        '\n' => Ev::Enter,
+                        '\u{2}' => Ev::Home,
+                        '\u{3}' => Ev::End,
+                        '\u{4}' => Ev::Left,
+                        '\u{5}' => Ev::Right,
+                        '\u{6}' => Ev::Backspace,
+                        '\u{7}' => Ev::Delete,
+                        '\u{8}' => Ev::Up,
+                        '\u{e}' => Ev::Down,
+                        '\u{f}' => Ev::Tab,
+                        c => Ev::Char(c),
+                    })
+                    .collect();
+                v.extend(last);
                 v
             }
             other => vec![other.clone()],
